@@ -776,6 +776,129 @@ def _simple_receiver(e):
     return isinstance(e, ast.Name)
 
 
+def devirtualise_facades(trees, shape_all, log):
+    """N34.  A pinned facade class (`class Hex: @staticmethod def marshal(...)` delegating to the function `marshal` of its
+    sibling module `.marshal`) that now INHERITS the method from a new base class which calls hooks through `cls.<hook>`,
+    the subclass binding the hook to a function of the sibling module (`carried_bytes = staticmethod(parse_hex_string)`):
+    the inherited method, specialised for this subclass (`cls.<hook>` -> that function), is the pinned module function
+    again, and the class gets the pinned delegating method back."""
+    def find_class(mname, name, depth=0):
+        tree = trees.get(mname)
+        if tree is None or depth > 4:
+            return None
+        for st in tree.body:
+            if isinstance(st, ast.ClassDef) and st.name == name:
+                return mname, st
+        for st in tree.body:
+            if isinstance(st, ast.ImportFrom):
+                for a in st.names:
+                    if (a.asname or a.name) == name:
+                        base = mname.split(".")
+                        is_pkg = (mname + ".__init__") in trees or any(k.startswith(mname + ".") for k in trees)
+                        if st.level:
+                            up = st.level - (1 if is_pkg else 0)
+                            base = base[:len(base) - up] if up else base
+                            target = ".".join(base + ([st.module] if st.module else []))
+                        else:
+                            target = st.module
+                        r = find_class(target, a.name, depth + 1)
+                        if r:
+                            return r
+        return None
+
+    for pname, sh in shape_all.items():
+        ptree = trees.get(pname)
+        if ptree is None:
+            continue
+        for q in [q for q in sh["functions"] if "." in q and q.count(".") == 1]:
+            cname, meth = q.split(".")
+            mname = pname + "." + meth if (pname + "." + meth) in shape_all else None
+            # the sibling module that pinned a function of the method's name (Hex.marshal <-> tpmstream.io.hex.marshal.marshal)
+            if mname is None or meth not in shape_all[mname]["functions"] or mname not in trees:
+                continue
+            mtree = trees[mname]
+            if any(isinstance(st, ast.FunctionDef) and st.name == meth for st in mtree.body):
+                continue   # still there
+            cdef = next((st for st in ptree.body if isinstance(st, ast.ClassDef) and st.name == cname), None)
+            if cdef is None or any(isinstance(m, ast.FunctionDef) and m.name == meth for m in cdef.body) or len(cdef.bases) != 1 \
+                    or not isinstance(cdef.bases[0], ast.Name):
+                continue
+            found = find_class(pname, cdef.bases[0].id)
+            if not found:
+                continue
+            bmod, bdef = found
+            bm = next((m for m in bdef.body if isinstance(m, ast.FunctionDef) and m.name == meth), None)
+            if bm is None:
+                continue
+            decs = [norm_dec(d) for d in bm.decorator_list]
+            if decs not in (["classmethod"], ["staticmethod"], []):
+                continue
+            f = copy.deepcopy(bm)
+            f.decorator_list = []
+            recv = None
+            if decs != ["staticmethod"]:
+                if not f.args.args:
+                    continue
+                recv = f.args.args[0].arg
+                f.args.args = f.args.args[1:]
+            hooks = {}
+            for st in cdef.body:
+                if isinstance(st, ast.Assign) and len(st.targets) == 1 and isinstance(st.targets[0], ast.Name):
+                    v = st.value
+                    if isinstance(v, ast.Call) and isinstance(v.func, ast.Name) and v.func.id == "staticmethod" and len(v.args) == 1:
+                        v = v.args[0]
+                    if isinstance(v, ast.Name):
+                        hooks[st.targets[0].id] = v.id
+            mdefs = {st.name for st in mtree.body if isinstance(st, (ast.FunctionDef, ast.ClassDef))} | \
+                {(a.asname or a.name).split(".")[0] for st in mtree.body if isinstance(st, (ast.Import, ast.ImportFrom)) for a in st.names}
+            ok = True
+
+            class Hook(ast.NodeTransformer):
+                def visit_Attribute(self, node):
+                    nonlocal ok
+                    self.generic_visit(node)
+                    if recv is not None and isinstance(node.value, ast.Name) and node.value.id == recv:
+                        tgt = hooks.get(node.attr)
+                        if tgt is None or tgt not in mdefs:
+                            ok = False
+                            return node
+                        return ast.copy_location(ast.Name(id=tgt, ctx=node.ctx), node)
+                    return node
+            Hook().visit(f)
+            if not ok or (recv is not None and any(isinstance(n, ast.Name) and n.id == recv for n in ast.walk(f))):
+                continue
+            # names of the base's module the body needs
+            btree = trees[bmod]
+            btop = {st.name for st in btree.body if isinstance(st, (ast.FunctionDef, ast.ClassDef))} | \
+                {(a.asname or a.name).split(".")[0] for st in btree.body if isinstance(st, (ast.Import, ast.ImportFrom)) for a in st.names}
+            params_ = {a.arg for a in ast.walk(f.args) if isinstance(a, ast.arg)}
+            need = sorted(({n.id for n in ast.walk(f) if isinstance(n, ast.Name) and isinstance(n.ctx, ast.Load)} & btop) - mdefs - params_)
+            if need:
+                imp = ast.ImportFrom(module=bmod, names=[ast.alias(name=x, asname=None) for x in need], level=0)
+                mtree.body.insert(0, imp)
+            mtree.body.append(f)
+            ast.fix_missing_locations(mtree)
+            # the pinned delegating method
+            a_ = f.args
+            pos = [x.arg for x in a_.args]
+            ndef = len(a_.defaults)
+            call = ast.Call(func=ast.Name(id=meth, ctx=ast.Load()),
+                            args=[ast.Name(id=x, ctx=ast.Load()) for x in pos[:len(pos) - ndef]],
+                            keywords=[ast.keyword(arg=x, value=ast.Name(id=x, ctx=ast.Load())) for x in pos[len(pos) - ndef:]] +
+                            ([ast.keyword(arg=None, value=ast.Name(id=a_.kwarg.arg, ctx=ast.Load()))] if a_.kwarg else []))
+            facade = ast.FunctionDef(name=meth, args=copy.deepcopy(a_), body=[ast.Return(value=call)],
+                                     decorator_list=[ast.Name(id="staticmethod", ctx=ast.Load())], returns=None, type_comment=None)
+            if hasattr(bm, "type_params"):
+                facade.type_params = []
+                f.type_params = []
+            ast.copy_location(facade, cdef)
+            cdef.body.append(facade)
+            ptree.body.insert(0, ast.ImportFrom(module=mname, names=[ast.alias(name=meth, asname=None)], level=0))
+            ast.fix_missing_locations(ptree)
+            log.setdefault(mname, [])
+            log[mname] = sorted(set(log[mname]) | {f"{cname}.{meth} (inherited from {bdef.name})"})
+
+
 def inline_new_members(trees, shape_all):
     """N9. `trees`: {module name: tree}.  A method or property that is new relative to the pinned shape, defined on a pinned
     class, whose name is used for nothing else in the project (no other definition, no attribute of that name in the pinned
@@ -844,6 +967,7 @@ def inline_new_members(trees, shape_all):
                         h.body = _strip_doc(m.body)
                         methods[m.name] = h
     log = {}
+    devirtualise_facades(trees, shape_all, log)
     # N28: a plain function that hands back the generator made by a (new) generator function - `return G(args)` - is, for
     # every consumer that iterates / sends / reads the generator's result, the generator function `return (yield from G(args))`
     gen_helpers = set()
@@ -1474,6 +1598,100 @@ def inline_constants(tree, shape):
     if done:
         _Slices().visit(tree)
         ast.fix_missing_locations(tree)
+    return done
+
+
+# ----------------------------------------------------------------------- N33 iterator classes around one generator method
+def dissolve_iterator_classes(tree, shape):
+    """N33.  A new class that is nothing but an iterator around one generator method - `__init__` stores a few fields and
+    `self._it = self.<gen>(...)`, `__next__` returns `next(self._it)` (and `__iter__` returns self) - and a pinned function
+    that only hands such an object back (`def f(x): return C(x)`) are, for everyone who iterates the result, the generator
+    function whose body is that method's, the fields being its locals."""
+    pinned_fns = set(shape["functions"])
+    pinned_classes = {q.split(".")[0] for q in pinned_fns if "." in q} | set(shape.get("names", ()))
+    done = []
+    for c in [x for x in tree.body if isinstance(x, ast.ClassDef) and x.name not in pinned_classes and not x.decorator_list]:
+        meths = {m.name: m for m in c.body if isinstance(m, ast.FunctionDef)}
+        if not {"__init__", "__next__"} <= set(meths) or any(m.decorator_list for m in meths.values()):
+            continue
+        if set(meths) - {"__init__", "__next__", "__iter__"} - {m for m in meths if not m.startswith("__")}:
+            continue
+        nx = _strip_doc(meths["__next__"].body)
+        if not (len(nx) == 1 and isinstance(nx[0], ast.Return) and isinstance(nx[0].value, ast.Call) and _callee(nx[0].value) == "next"
+                and len(nx[0].value.args) == 1 and isinstance(nx[0].value.args[0], ast.Attribute)
+                and isinstance(nx[0].value.args[0].value, ast.Name) and nx[0].value.args[0].value.id == "self"):
+            continue
+        itattr = nx[0].value.args[0].attr
+        if "__iter__" in meths:
+            it_ = _strip_doc(meths["__iter__"].body)
+            if not (len(it_) == 1 and isinstance(it_[0], ast.Return) and isinstance(it_[0].value, ast.Name) and it_[0].value.id == "self"):
+                continue
+        init = meths["__init__"]
+        if init.args.vararg or init.args.kwarg or init.args.kwonlyargs or init.args.defaults:
+            continue
+        iparams = [a.arg for a in init.args.args][1:]
+        fields_, gen_call = [], None
+        ok = True
+        for st in _strip_doc(init.body):
+            tgt = st.targets[0] if isinstance(st, ast.Assign) and len(st.targets) == 1 else st.target if isinstance(st, ast.AnnAssign) and st.value is not None else None
+            if not (isinstance(tgt, ast.Attribute) and isinstance(tgt.value, ast.Name) and tgt.value.id == "self"):
+                ok = False
+                break
+            if tgt.attr == itattr:
+                v = st.value
+                if not (isinstance(v, ast.Call) and isinstance(v.func, ast.Attribute) and isinstance(v.func.value, ast.Name)
+                        and v.func.value.id == "self" and v.func.attr in meths and not v.keywords):
+                    ok = False
+                    break
+                gen_call = v
+            else:
+                fields_.append((tgt.attr, st.value))
+        if not ok or gen_call is None:
+            continue
+        gen = meths[gen_call.func.attr]
+        if not any(isinstance(n, (ast.Yield, ast.YieldFrom)) for n in _walk_fn(gen)) or gen.args.vararg or gen.args.kwarg or gen.args.defaults:
+            continue
+        gparams = [a.arg for a in gen.args.args][1:]
+        if len(gparams) != len(gen_call.args):
+            continue
+        # other methods must not exist (the object has no behaviour beyond iteration)
+        if set(meths) - {"__init__", "__next__", "__iter__", gen.name}:
+            continue
+        for q, fn in functions_of(tree).items():
+            if q not in pinned_fns or "." in q:
+                continue
+            body = _strip_doc(fn.body)
+            if not (len(body) == 1 and isinstance(body[0], ast.Return) and isinstance(body[0].value, ast.Call)
+                    and isinstance(body[0].value.func, ast.Name) and body[0].value.func.id == c.name and not body[0].value.keywords
+                    and len(body[0].value.args) == len(iparams)):
+                continue
+            taken = {a.arg for a in ast.walk(fn.args) if isinstance(a, ast.arg)}
+            amap = dict(zip(iparams, body[0].value.args))             # __init__ parameter -> argument expression of the call
+            fmap = {f_: (f_ if f_ not in taken else f_ + "_") for f_, _ in fields_}
+
+            class Self(ast.NodeTransformer):
+                def visit_Attribute(self, node):
+                    self.generic_visit(node)
+                    if isinstance(node.value, ast.Name) and node.value.id == "self" and node.attr in fmap:
+                        return ast.copy_location(ast.Name(id=fmap[node.attr], ctx=node.ctx), node)
+                    return node
+            new = []
+            for f_, v in fields_:
+                v2 = Self().visit(_Subst(amap).visit(copy.deepcopy(v)))
+                new.append(ast.copy_location(ast.Assign(targets=[ast.Name(id=fmap[f_], ctx=ast.Store())], value=v2, lineno=fn.lineno), fn))
+            gargs = [_Subst(amap).visit(copy.deepcopy(a)) for a in gen_call.args]
+            gbody = copy.deepcopy(_strip_doc(gen.body))
+            wrapper = ast.Module(body=gbody, type_ignores=[])
+            Self().visit(wrapper)
+            if any(isinstance(n, ast.Name) and n.id == "self" for n in ast.walk(wrapper)):
+                continue   # the object itself is used: not just a bundle of locals
+            substitute(wrapper, dict(zip(gparams, gargs)))
+            doc = fn.body[:1] if fn.body and isinstance(fn.body[0], ast.Expr) and isinstance(fn.body[0].value, ast.Constant) else []
+            fn.body = doc + new + wrapper.body
+            ast.fix_missing_locations(fn)
+            done.append(f"{q}={c.name}")
+        if done and not any(isinstance(n, ast.Name) and n.id == c.name and isinstance(n.ctx, ast.Load) for n in ast.walk(tree)):
+            tree.body.remove(c)
     return done
 
 
@@ -2362,6 +2580,377 @@ def expand_keyword_dicts(fn, candidates):
     return done
 
 
+# ------------------------------------------------------------------------- N31 tags and keyword bundles threaded through branches
+def thread_new_locals(fn, new_locals, pinned_locals=()):
+    """N31.  A new local that only carries a TAG - a constant, an enum member, a module-level function - chosen in one
+    if-chain and tested (or called) further down, and a new local that is a KEYWORD BUNDLE filled in under those tests and
+    splatted into one call, are threaded through: the statements behind an `if` whose branches leave such locals with
+    different known values are copied into both branches (tail duplication, which never changes what is executed), the
+    known values are substituted, tests on them are folded and dead branches dropped.  `kind = classify(T); walker =
+    TABLE[kind]; kw = {}; if kind is K1: kw["a"] = a ...; yield from walker(T, **kw)` becomes the if-chain over the
+    classification with one direct call per branch."""
+    params = {a.arg for a in ast.walk(fn.args) if isinstance(a, ast.arg)}
+    local_names = fn_locals(fn) | params
+    budget = [12]
+    changed = [0]
+
+    def constlike(e):
+        if isinstance(e, ast.Constant):
+            return True
+        if isinstance(e, ast.Name):
+            return e.id not in local_names
+        if isinstance(e, ast.Attribute):
+            return isinstance(e.value, ast.Name) and e.value.id not in local_names and e.value.id[:1].isupper()
+        return False
+
+    def kwdisplay(e):
+        return isinstance(e, ast.Dict) and all(isinstance(k, ast.Constant) and isinstance(k.value, str) and k.value.isidentifier() for k in e.keys)
+
+    class Sub(ast.NodeTransformer):
+        def __init__(self, env):
+            self.env = env
+
+        def visit_FunctionDef(self, node):
+            return node
+
+        def visit_Lambda(self, node):
+            return node
+
+        def visit_Name(self, node):
+            v = self.env.get(node.id)
+            if isinstance(node.ctx, ast.Load) and v is not None and v[0] == "const":
+                changed[0] += 1
+                return ast.copy_location(copy.deepcopy(v[1]), node)
+            return node
+
+        def visit_Call(self, node):
+            self.generic_visit(node)
+            kws = []
+            for k in node.keywords:
+                v = self.env.get(k.value.id) if k.arg is None and isinstance(k.value, ast.Name) else None
+                if v is not None and v[0] == "kwdict":
+                    kws.extend(ast.keyword(arg=kk, value=copy.deepcopy(vv)) for kk, vv in v[1])
+                    changed[0] += 1
+                else:
+                    kws.append(k)
+            node.keywords = kws
+            return node
+
+    def fold(test):
+        """True / False / None for a test over substituted tags"""
+        if isinstance(test, ast.Constant):
+            return bool(test.value)
+        if isinstance(test, ast.UnaryOp) and isinstance(test.op, ast.Not):
+            v = fold(test.operand)
+            return None if v is None else not v
+        if isinstance(test, ast.BoolOp):
+            vals = [fold(v) for v in test.values]
+            if isinstance(test.op, ast.And):
+                return False if False in vals else True if all(v is True for v in vals) else None
+            return True if True in vals else False if all(v is False for v in vals) else None
+        if isinstance(test, ast.Compare) and len(test.ops) == 1 and isinstance(test.ops[0], (ast.Eq, ast.NotEq, ast.Is, ast.IsNot)):
+            a, b = test.left, test.comparators[0]
+            if constlike(a) and constlike(b) and not (isinstance(a, ast.Constant) and isinstance(b, ast.Constant) and isinstance(test.ops[0], (ast.Is, ast.IsNot))
+                                                       and not (a.value is None or b.value is None or isinstance(a.value, bool) or isinstance(b.value, bool))):
+                same = ast.dump(a) == ast.dump(b)
+                if not same and not (type(a) is type(b)):
+                    return None   # (a function name against an enum member ...: not decided here)
+                return same if isinstance(test.ops[0], (ast.Eq, ast.Is)) else not same
+        return None
+
+    def simplify_test(test):
+        """drop decided operands of an and / or"""
+        if isinstance(test, ast.BoolOp):
+            vals = []
+            for v in test.values:
+                f = fold(v)
+                if f is None:
+                    vals.append(simplify_test(v))
+                elif f != isinstance(test.op, ast.And):
+                    return ast.copy_location(ast.Constant(value=f), test)
+            if not vals:
+                return ast.copy_location(ast.Constant(value=isinstance(test.op, ast.And)), test)
+            return vals[0] if len(vals) == 1 else ast.copy_location(ast.BoolOp(op=test.op, values=vals), test)
+        return test
+
+    def stores_in(st):
+        return {n.id for n in ast.walk(st) if isinstance(n, ast.Name) and isinstance(n.ctx, (ast.Store, ast.Del))}
+
+    def loads_in(stmts):
+        return {n.id for s_ in stmts for n in ast.walk(s_) if isinstance(n, ast.Name) and isinstance(n.ctx, ast.Load)}
+
+    def same(v1, v2):
+        if v1 is None or v2 is None:
+            return v1 is v2
+        if v1[0] != v2[0]:
+            return False
+        if v1[0] == "const":
+            return ast.dump(v1[1]) == ast.dump(v2[1])
+        return [(k, ast.dump(v)) for k, v in v1[1]] == [(k, ast.dump(v)) for k, v in v2[1]]
+
+    def run(stmts, env):
+        """-> env at the end of the list, or None when the list cannot fall through"""
+        i = 0
+        while i < len(stmts):
+            st = stmts[i]
+            if isinstance(st, ast.Assign) and len(st.targets) == 1 and isinstance(st.targets[0], ast.Name) and st.targets[0].id in new_locals:
+                x = st.targets[0].id
+                st.value = Sub(env).visit(st.value)
+                if constlike(st.value):
+                    env[x] = ("const", st.value)
+                elif kwdisplay(st.value):
+                    env[x] = ("kwdict", [(k.value, v) for k, v in zip(st.value.keys, st.value.values)])
+                else:
+                    env.pop(x, None)
+                i += 1
+                continue
+            if isinstance(st, ast.Assign) and len(st.targets) == 1 and isinstance(st.targets[0], ast.Subscript) \
+                    and isinstance(st.targets[0].value, ast.Name) and env.get(st.targets[0].value.id, ("",))[0] == "kwdict" \
+                    and isinstance(st.targets[0].slice, ast.Constant) and isinstance(st.targets[0].slice.value, str):
+                x = st.targets[0].value.id
+                st.value = Sub(env).visit(st.value)
+                pairs = [(k, v) for k, v in env[x][1] if k != st.targets[0].slice.value] + [(st.targets[0].slice.value, st.value)]
+                env[x] = ("kwdict", pairs)
+                i += 1
+                continue
+            if isinstance(st, ast.If):
+                st.test = simplify_test(Sub(env).visit(st.test))
+                f = fold(st.test)
+                if f is not None:
+                    stmts[i:i + 1] = st.body if f else st.orelse
+                    changed[0] += 1
+                    continue
+                e1, e2 = run(st.body, dict(env)), run(st.orelse, dict(env))
+                tail = stmts[i + 1:]
+                if tail and e1 is not None and e2 is not None and budget[0] > 0 and len(tail) <= 8:
+                    used = loads_in(tail) & new_locals
+                    if any(not same(e1.get(v), e2.get(v)) and (e1.get(v) is not None or e2.get(v) is not None) for v in used):
+                        budget[0] -= 1
+                        changed[0] += 1
+                        st.body = st.body + copy.deepcopy(tail)
+                        st.orelse = st.orelse + copy.deepcopy(tail)
+                        del stmts[i + 1:]
+                        continue   # process this `if` again, now with the tail inside
+                if e1 is None and e2 is None:
+                    if stmts[i + 1:]:
+                        del stmts[i + 1:]
+                        changed[0] += 1
+                    return None
+                src = e1 if e2 is None else e2 if e1 is None else {k: v for k, v in e1.items() if same(v, e2.get(k))}
+                env.clear()
+                env.update(src)
+                i += 1
+                continue
+            if isinstance(st, (ast.For, ast.AsyncFor, ast.While, ast.Try, ast.With, ast.AsyncWith, ast.FunctionDef, ast.ClassDef, ast.Match)):
+                for v in stores_in(st) | {n.value.id for n in ast.walk(st) if isinstance(n, ast.Subscript) and isinstance(n.ctx, ast.Store)
+                                            and isinstance(n.value, ast.Name)}:
+                    env.pop(v, None)
+                i += 1
+                continue
+            if isinstance(st, (ast.Return, ast.Raise)):
+                stmts[i] = Sub(env).visit(st)
+                if stmts[i + 1:]:
+                    del stmts[i + 1:]      # (copied tail statements behind a branch that leaves)
+                    changed[0] += 1
+                return None
+            if isinstance(st, (ast.Continue, ast.Break)):
+                if stmts[i + 1:]:
+                    del stmts[i + 1:]
+                return None
+            for v in stores_in(st):
+                env.pop(v, None)
+            stmts[i] = Sub(env).visit(st)
+            # a bundle that escapes in any other way than `**x` is an object again
+            for n in ast.walk(stmts[i]):
+                if isinstance(n, ast.Name) and env.get(n.id, ("",))[0] == "kwdict" and isinstance(n.ctx, ast.Load):
+                    env.pop(n.id, None)
+            i += 1
+        return env
+
+    # only worth it when a tag or a bundle is there at all
+    cands = [st for st in _walk_fn(fn) if isinstance(st, ast.Assign) and len(st.targets) == 1 and isinstance(st.targets[0], ast.Name)
+             and st.targets[0].id in new_locals and (constlike(st.value) or kwdisplay(st.value))]
+    if not cands:
+        return 0
+    snapshot = copy.deepcopy(fn.body)
+    try:
+        run(fn.body, {})
+    except RecursionError:
+        fn.body = snapshot
+        return 0
+    # stores to new locals nobody reads any more
+    for _ in range(4):
+        store_bases = {id(n.value) for n in _walk_fn(fn) if isinstance(n, ast.Subscript) and isinstance(n.ctx, ast.Store)
+                       and isinstance(n.value, ast.Name) and n.value.id in new_locals}
+        live = {n.id for n in _walk_fn(fn) if isinstance(n, ast.Name) and isinstance(n.ctx, ast.Load) and id(n) not in store_bases}
+        removed = False
+        for owner, field, lst in _stmt_lists(fn):
+            for st in list(lst):
+                tgt = st.targets[0] if isinstance(st, ast.Assign) and len(st.targets) == 1 else None
+                name = tgt.id if isinstance(tgt, ast.Name) else tgt.value.id if isinstance(tgt, ast.Subscript) and isinstance(tgt.value, ast.Name) else None
+                if name in new_locals and name not in live and name not in params and (constlike(st.value) or kwdisplay(st.value) or is_pure(st.value)):
+                    lst.remove(st)
+                    removed = True
+                    if not lst:
+                        lst.append(ast.copy_location(ast.Pass(), st))
+        if not removed:
+            break
+    if changed[0]:
+        # `elif A: if B: X else: Y` (a branch that is nothing but another decision) is `elif A and B: X elif A: Y`
+        def flatten(stmts):
+            for st in stmts:
+                for f_ in ("body", "orelse", "finalbody"):
+                    sub = getattr(st, f_, None)
+                    if isinstance(sub, list) and sub and isinstance(sub[0], ast.stmt):
+                        flatten(sub)
+                for h in getattr(st, "handlers", []) or []:
+                    flatten(h.body)
+                while isinstance(st, ast.If) and len(st.body) == 1 and isinstance(st.body[0], ast.If) and st.body[0].orelse \
+                        and is_pure(st.test) and len(st.body[0].orelse) >= 1 and not (len(st.body[0].orelse) == 1 and isinstance(st.body[0].orelse[0], ast.If)):
+                    inner = st.body[0]
+                    rest = ast.copy_location(ast.If(test=copy.deepcopy(st.test), body=inner.orelse, orelse=st.orelse), inner)
+                    st.test = ast.copy_location(ast.BoolOp(op=ast.And(), values=[st.test, inner.test]), st.test)
+                    st.body = inner.body
+                    st.orelse = [rest]
+        flatten(fn.body)
+        # a dispatcher written with early returns - `if c1: return (yield from f1(..))` ... `return (yield from fn(..))` - is the
+        # if / elif / else chain that binds the delegated result to one local and returns it once (the pinned form; the local
+        # is the pinned one that went missing, or the one some branches already use)
+        _result_chain(fn, [v for v in pinned_locals if v not in params])
+        flatten(fn.body)
+        ast.fix_missing_locations(fn)
+    return changed[0]
+
+
+def _result_chain(fn, pinned_locals):
+    def deleg(v):
+        return isinstance(v, ast.YieldFrom) and isinstance(v.value, ast.Call)
+
+    def leaf_kind(stmts):
+        """('ret', yield-from) for `return (yield from f())`, ('bound', name, assign) for `r = yield from f(); return r`"""
+        if len(stmts) == 1 and isinstance(stmts[0], ast.Return) and deleg(stmts[0].value):
+            return ("ret", stmts[0])
+        if len(stmts) == 2 and isinstance(stmts[0], ast.Assign) and len(stmts[0].targets) == 1 and isinstance(stmts[0].targets[0], ast.Name) \
+                and deleg(stmts[0].value) and isinstance(stmts[1], ast.Return) and isinstance(stmts[1].value, ast.Name) \
+                and stmts[1].value.id == stmts[0].targets[0].id:
+            return ("bound", stmts[0].targets[0].id)
+        return None
+
+    def leaves(st, out):
+        """collect the leaf statement lists of an if-chain (nested ifs included); False when a branch is something else"""
+        if not isinstance(st, ast.If):
+            return False
+        for br in (st.body, st.orelse):
+            if not br:
+                continue
+            if len(br) == 1 and isinstance(br[0], ast.If):
+                if not leaves(br[0], out):
+                    return False
+            elif leaf_kind(br) is not None:
+                out.append(br)
+            else:
+                return False
+        return True
+
+    def open_else(st):
+        """the innermost if of the chain that has no else yet, or None"""
+        while True:
+            if not st.orelse:
+                return st
+            if len(st.orelse) == 1 and isinstance(st.orelse[0], ast.If):
+                st = st.orelse[0]
+            else:
+                return None
+    def push_return(stmts):
+        """`if B: r = X else: r = Y` + `return r`  ->  the return inside both branches (so that every leaf looks alike)"""
+        for st in stmts:
+            if isinstance(st, ast.If):
+                push_return(st.body)
+                push_return(st.orelse)
+        if len(stmts) == 2 and isinstance(stmts[0], ast.If) and isinstance(stmts[1], ast.Return) and isinstance(stmts[1].value, ast.Name):
+            r_ = stmts[1].value.id
+            brs = []
+
+            def collect(st):
+                for br in (st.body, st.orelse):
+                    if not br:
+                        return False
+                    if len(br) == 1 and isinstance(br[0], ast.If):
+                        if not collect(br[0]):
+                            return False
+                    elif len(br) == 1 and isinstance(br[0], ast.Assign) and len(br[0].targets) == 1 and isinstance(br[0].targets[0], ast.Name) \
+                            and br[0].targets[0].id == r_ and deleg(br[0].value):
+                        brs.append(br)
+                    else:
+                        return False
+                return True
+            if collect(stmts[0]):
+                for br in brs:
+                    br.append(copy.deepcopy(stmts[1]))
+                del stmts[1]
+    push_return(fn.body)
+    body = fn.body
+    if not body:
+        return
+    j = len(body)
+    all_leaves = []
+    if leaf_kind(body[j - 2:]) is not None and len(body) >= 2:
+        all_leaves.append(("tail2", None))
+        j -= 2
+    elif leaf_kind(body[j - 1:]) is not None:
+        all_leaves.append(("tail1", None))
+        j -= 1
+    while j > 0:
+        out = []
+        if isinstance(body[j - 1], ast.If) and leaves(body[j - 1], out) and (open_else(body[j - 1]) is not None or j == len(body)):
+            all_leaves.extend(("leaf", br) for br in out)
+            j -= 1
+        else:
+            break
+    n_links = len(body) - j
+    if n_links < 2 or not any(k == "leaf" for k, _ in all_leaves):
+        return
+    names = {leaf_kind(br)[1] for k, br in all_leaves if k == "leaf" and leaf_kind(br)[0] == "bound"}
+    tailk = leaf_kind(body[-2:]) if all_leaves[0][0] == "tail2" else leaf_kind(body[-1:]) if all_leaves[0][0] == "tail1" else None
+    if tailk is not None and tailk[0] == "bound":
+        names.add(tailk[1])
+    missing = [v for v in pinned_locals if v not in fn_locals(fn)]
+    if len(names) == 1:
+        r = names.pop()
+    elif not names and len(missing) == 1:
+        r = missing[0]
+    else:
+        return
+
+    def bind(br):
+        k = leaf_kind(br)
+        if k[0] == "ret":
+            st = k[1]
+            br[:] = [ast.copy_location(ast.Assign(targets=[ast.Name(id=r, ctx=ast.Store())], value=st.value, lineno=st.lineno), st)]
+        else:
+            del br[1:]
+    # build the chain back to front
+    rest = None
+    tail_stmts = body[j + (n_links - (2 if all_leaves[0][0] == "tail2" else 1 if all_leaves[0][0] == "tail1" else 0)):]
+    links = body[j:len(body) - len(tail_stmts)] if tail_stmts else body[j:]
+    if tail_stmts:
+        bind(tail_stmts)
+        rest = tail_stmts
+    for st in reversed(links):
+        out = []
+        leaves(st, out)
+        for br in out:
+            bind(br)
+        if rest is not None:
+            oe = open_else(st)
+            if oe is None:
+                return   # (cannot happen: checked above)
+            oe.orelse = rest
+        rest = [st]
+    body[j:] = rest + [ast.copy_location(ast.Return(value=ast.Name(id=r, ctx=ast.Load())), body[-1])]
+    ast.fix_missing_locations(fn)
+
+
 # ------------------------------------------------------------------------- N5 counted loops
 def _has_continue(stmts):
     for st in stmts:
@@ -2822,6 +3411,9 @@ def normalise(tree, modname, shape_all=None, keep=frozenset()):
         if oc.count:
             log["operator_calls"] = oc.count
             ast.fix_missing_locations(tree)
+    itc = dissolve_iterator_classes(tree, shape)
+    if itc:
+        log["iterator_classes"] = itc
     rec = scalar_replace_records(tree, shape)
     if rec:
         log["records"] = rec
@@ -2846,6 +3438,9 @@ def normalise(tree, modname, shape_all=None, keep=frozenset()):
         if (fn_locals(fn) - set(pinned["locals"])) and split_tuple_assignments(fn, fn_locals(fn) - set(pinned["locals"])):
             log.setdefault("tuple_splits", []).append(q)
         new_locals = fn_locals(fn) - set(pinned["locals"])
+        if new_locals and thread_new_locals(fn, new_locals, pinned["locals"]):
+            log.setdefault("threaded", []).append(q)
+            new_locals = fn_locals(fn) - set(pinned["locals"])
         if new_locals:
             kd = expand_keyword_dicts(fn, new_locals)
             k = forward_substitute(fn, new_locals)
@@ -2868,6 +3463,14 @@ def normalise(tree, modname, shape_all=None, keep=frozenset()):
                 total += k
             if total:
                 log["conditionals"][q] = total
+                # a tag chosen by a conditional value is an if-chain over assignments now: thread it (N31) once more
+                nl = fn_locals(fn) - set(pinned["locals"])
+                if nl and thread_new_locals(fn, nl, pinned["locals"]):
+                    log.setdefault("threaded", []).append(q)
+                    nl = fn_locals(fn) - set(pinned["locals"])
+                    if nl:
+                        expand_keyword_dicts(fn, nl)
+                        forward_substitute(fn, nl)
     for q, fn in functions_of(tree).items():
         if shape["functions"].get(q) is not None and merge_guards(fn):
             log.setdefault("merged_guards", []).append(q)
